@@ -63,10 +63,11 @@ PROPS = {
         "technique": "Verus loop invariants on the extracted remove_nan_mut body; bounded memory-level enumeration of the unsafe view builders",
         "design_ref": "DESIGN.md 4 (C04)",
         "verus": [("nan", "N")],
-        "kani": {"bounded_quick": ["bounded_cast_view_f64", "bounded_cast_view_opt_i32"], "bounded_thorough": ["bounded_remove_nan_opt_i8"], "bounded_timeout": 2400,
+        "kani": {"complete": ["complete_notnan_option_i32", "complete_notnan_option_u8", "complete_notnan_f64", "complete_notnan_f32"],
+                 "bounded_quick": ["bounded_cast_view_f64", "bounded_cast_view_opt_i32"], "bounded_thorough": ["bounded_remove_nan_opt_i8"], "bounded_timeout": 2400,
                  "bound": "cast_view_mut on every slice (start,end,|step|<=3) of a 12-element buffer: pointer/len/stride preserved (symbolic); thorough: Option<i8>::remove_nan_mut end-to-end on symbolic contents, views of <= 3 elements with |step|<=2 in a 6-element buffer: length, address containment, no None reachable (about 16 min)"},
         "enum": [{"name": "nanview"}],
-        "assumptions": [A_ND, A_VERUS, A_EXTRACT, A_ENUM, "unsafe code (cast_view_mut, Option<T>::remove_nan_mut pointer casts, NotNone::deref's unreachable_unchecked) is outside Verus; covered only by the bounded memory-level enumeration"],
+        "assumptions": [A_ND, A_VERUS, A_EXTRACT, A_ENUM, "unsafe code is outside Verus: the not-NaN wrappers (try_as_not_nan / from_not_nan* pointer casts, NotNone::deref's unreachable_unchecked) are covered by complete loop-free Kani harnesses for Option<i32>, Option<u8>, f64, f32; cast_view_mut and the typed remove_nan_mut wrappers only by bounded Kani harnesses and the memory-level enumeration"],
         "not_decided": ["soundness of the unsafe view builders beyond the enumerated bound"],
     },
     "C12": {
